@@ -178,11 +178,18 @@ func init() {
 		MaxWorkers:  8,
 		Plan: func(tier core.Tier, seed int64) int {
 			if tier == core.Thorough {
-				return 10000
+				return 10000 + c08OverlapCases*8
 			}
-			return 96
+			return 96 + c08OverlapCases
 		},
-		Run: runC08,
+		Run: func(c *core.Ctx, idx int) {
+			if n := map[bool]int{false: 96, true: 10000}[c.Tier == core.Thorough]; idx >= n {
+				// commit actions once per committed transaction, also when the context's next transaction starts while they run
+				overlapCase(c, idx-n, "C08")
+				return
+			}
+			runC08(c, idx)
+		},
 		Promises: func(core.Tier) map[string][]string {
 			return map[string][]string{"nesting": {"nested-update", "nested-batch", "commit-action-registered-before-the-transaction", "listener-registered-inside-the-transaction", "context-of-the-previous-transaction-used-again (committed)", "context-of-the-previous-transaction-used-again (rolled back)"}, "tx_kind": {"update-committed", "update-rolled-back", "update-vetoed", "batch-committed", "batch-concurrent-with-failure"},
 				"event": {"parent-event-for-child:created-over-existing", "emps:created", "emps:updated", "emps:deleted", "depts:created", "depts:deleted", "emps/ext:created", "emps/ext:updated", "emps/ext:deleted", "emps/xt:created", "emps/xt:updated", "emps/xt:deleted",
@@ -191,6 +198,8 @@ func init() {
 		MinCounters: func(core.Tier) map[string]int64 { return map[string]int64{"deliveries_checked": 5000} },
 	})
 }
+
+const c08OverlapCases = 12
 
 func runC08(c *core.Ctx, idx int) {
 	r := c.Rand()
@@ -263,6 +272,17 @@ func runC08(c *core.Ctx, idx int) {
 		st.Store.AddEntityIdListener(func(id string) {
 			rec.add(delivery{Style: "multi:AddEntityIdListener", Store: k, Type: "*", Id: id})
 		}, boltz.EntityCreated, boltz.EntityUpdated, boltz.EntityDeleted)
+		// two registrations which hand over the same slice of further change types (a slice with room to spare): each
+		// listener keeps the types it was registered for
+		shared := make([]boltz.EntityEventType, 0, 4)
+		shared = append(shared, boltz.EntityDeleted)
+		st.Store.AddListener(func(en boltz.Entity) {
+			x, _ := en.(*schema.Ent)
+			rec.add(delivery{Style: "shared:AddListener(created+deleted)", Store: k, Type: "*", Id: idOf(x)})
+		}, boltz.EntityCreated, shared...)
+		st.Store.AddEntityIdListener(func(id string) {
+			rec.add(delivery{Style: "shared:AddEntityIdListener(updated+deleted)", Store: k, Type: "*", Id: id})
+		}, boltz.EntityUpdated, shared...)
 		st.Store.AddEntityConstraint(&typedConstraint{rec: rec, store: k, st: st})
 		st.Store.AddUntypedEntityConstraint(&untypedConstraint{rec: rec, store: k, st: st, vetoOn: func(boltz.UntypedEntityChangeState) bool {
 			if vetoArmed {
@@ -446,6 +466,14 @@ func runC08(c *core.Ctx, idx int) {
 				for _, style := range []string{"multi:AddListener", "multi:AddEntityEventListener", "multi:AddEntityEventListenerF", "multi:AddEntityIdListener"} {
 					want[strings.Join([]string{style, ev.Store, "*", ev.Id, ""}, "|")]++
 				}
+				if !anyType[ev.Store+"|"+ev.Id] {
+					if ev.Type == "created" || ev.Type == "deleted" {
+						want[strings.Join([]string{"shared:AddListener(created+deleted)", ev.Store, "*", ev.Id, ""}, "|")]++
+					}
+					if ev.Type == "updated" || ev.Type == "deleted" {
+						want[strings.Join([]string{"shared:AddEntityIdListener(updated+deleted)", ev.Store, "*", ev.Id, ""}, "|")]++
+					}
+				}
 				for _, l := range late {
 					if l.store == ev.Store && serials[0] >= l.serial {
 						want[strings.Join([]string{l.style, ev.Store, "*", ev.Id, ""}, "|")]++
@@ -461,6 +489,9 @@ func runC08(c *core.Ctx, idx int) {
 				continue
 			}
 
+			if strings.HasPrefix(d.Style, "shared:") && anyType[d.Store+"|"+d.Id] {
+				continue // whether such an id was created or updated is not judged: neither is which of the two listeners saw it
+			}
 			if anyType[d.Store+"|"+d.Id] && (d.Type == "created" || d.Type == "updated") && !strings.HasPrefix(d.Style, "multi:") && !strings.HasPrefix(d.Style, "late:") {
 				have[strings.Join([]string{d.Style, d.Store, "created-or-updated", d.Id, ""}, "|")]++
 				continue
@@ -501,7 +532,7 @@ func runC08(c *core.Ctx, idx int) {
 		for _, k := range keys {
 			if want[k] != have[k] {
 				p := strings.SplitN(k, "|", 5)
-				if (strings.HasPrefix(p[0], "multi:") || strings.HasPrefix(p[0], "late:")) && have[k] > want[k] && have[k] <= want[k]+optionalIds[p[1]+"|"+p[3]] {
+				if (strings.HasPrefix(p[0], "multi:") || strings.HasPrefix(p[0], "late:") || strings.HasPrefix(p[0], "shared:")) && have[k] > want[k] && have[k] <= want[k]+optionalIds[p[1]+"|"+p[3]] {
 					continue
 				}
 				kind := "missing"
